@@ -8,6 +8,7 @@ forward-reference string or by name) into MonkeyType-style anonymous TypedDicts 
 from __future__ import annotations
 
 import ast
+import builtins as builtins_mod
 import typing
 from typing import Any, Dict, List, Optional, Tuple
 
@@ -116,6 +117,13 @@ def parse(text: str, own_names: Optional[Dict[str, Any]] = None, lenient_modules
             if c.name not in td_names and is_td_base(c):
                 td_names.add(c.name)
                 changed = True
+    # every base class a stub's class definition names must be provided by the stub's own imports (or be a class of the
+    # stub / the target module): `class X(TypedDict)` without an import of TypedDict cannot be evaluated
+    for c in classdefs:
+        for b in c.bases:
+            bname = b.id if isinstance(b, ast.Name) else None
+            if bname is not None and bname not in ns and bname not in td_names and bname not in _seen_names and not hasattr(builtins_mod, bname):
+                info.import_errors.append(f"class {c.name}({bname}): base class {bname} is not provided by the stub's imports")
     for c in classdefs:
         if c.name in td_names:
             total = True
